@@ -59,6 +59,10 @@ def check(repo: Repo) -> Result:
 
     r7 = res.rule("C03-R7", "the (factor, offset) pair every route applies is the affine map between the two scales: factor = old scale / new scale, offset = factor * old offset - new offset, and the offset is left out only when both units have none - equal non-zero offsets with different scales still need it, or A->B->C differs from A->C (shared with C02-R4)", floor=4)
     share(res, r7, "C02", lambda t: c02.ratio_direction(repo, t), ["C02-R4"], min_keys=4)
+    from rules import c13
+
+    r8 = res.rule("C03-R8", "a target given as text and a target given as a Unit of the array's registry are the same target: the registry's unit-string cache only ever holds units parsed against that registry (a copied registry does not inherit the original's cached Unit objects, whose scales are the original's) (shared with C13-R1)", floor=2)
+    share(res, r8, "C13", lambda t: c13.ownership(repo, t), ["C13-R1"], want=lambda k: k in ("unit-cache-owner",) or k.startswith("unit-cache-writer:"), min_keys=2)
     return res
 
 
